@@ -25,7 +25,56 @@ SCOPE = {"quick": "all (c,r) pairs n<=4 (11.6k) + superset candidates + 300 samp
 CHUNK = 2
 
 
+def _check_large(case):
+    """Large scale: a candidate over n ~ 3000 elements and hundreds of sparse rankings (a few ranking types, each many
+    times), so that pair counts exceed 2**31: the counts must not be accumulated in 32-bit integers.  The expected score
+    is computed per ranking type by a vectorised classification of all pairs (numpy int64) times its multiplicity."""
+    import numpy as np
+    from bounded import adapt as A
+    from corankco.kemeny_score_computation import KemenyComputingFactory
+    n, types, mult, scheme = case["n"], case["types"], case["mult"], case["scheme"]
+    B, T = [np.array(v, dtype=np.float64) for v in scheme]
+    # candidate: singletons n-1 .. 10, then a few tied buckets over 0..9
+    cand = [[x] for x in range(n - 1, 9, -1)] + [[0, 1, 2], [3], [4, 5], [6], [7], [8, 9]]
+    cpos = np.empty(n, dtype=np.int64)
+    for k, b in enumerate(cand):
+        for x in b:
+            cpos[x] = k
+    before = cpos[:, None] < cpos[None, :]
+    tied = np.triu(cpos[:, None] == cpos[None, :], 1)
+    expect = 0.0
+    for r, k in zip(types, mult):
+        p = np.full(n, -1, dtype=np.int64)
+        for i, b in enumerate(r):
+            for x in b:
+                p[x] = i
+        px, py = p[:, None], p[None, :]
+        both = (px >= 0) & (py >= 0)
+        st = np.full((n, n), 5, dtype=np.int64)
+        st[both & (px < py)] = 0
+        st[both & (px > py)] = 1
+        st[both & (px == py)] = 2
+        st[(px >= 0) & (py < 0)] = 3
+        st[(px < 0) & (py >= 0)] = 4
+        cb = np.bincount(st[before], minlength=6).astype(np.float64)
+        ct = np.bincount(st[tied], minlength=6).astype(np.float64)
+        expect += k * float(cb @ B + ct @ T)
+    rankings = [r for r, k in zip(types, mult) for _ in range(k)]
+    got = float(KemenyComputingFactory(A.mk_scheme(scheme)).get_kemeny_score(A.mk_ranking(cand), A.mk_dataset(rankings)))
+    fails = []
+    if got != expect:
+        fails.append({"clause": "C01.prop", "site": "get_kemeny_score, large scale",
+                      "detail": {"n": n, "ranking_types": types, "multiplicities": mult, "scheme": scheme, "got": got,
+                                 "expected": expect}})
+    return {"fails": fails, "key": "large|%d|%s" % (n, mult), "evals": 1, "sample": {"n": n, "mult": mult}}
+
+
 def gen_cases(tier, seed):
+    # pair counts above 2**31 (3000 elements, 520 sparse rankings)
+    for n, k in ([(3000, 130)] if tier == "quick" else [(3000, 130), (3500, 100), (2500, 200)]):
+        yield {"kind": "large", "n": n, "mult": [k] * 4, "scheme": D.unifying(),
+               "types": [[[0], [1], [2], [3], [4]], [[4], [2, 3], [1], [n - 1]], [[7, 8], [n // 2], [0]],
+                         [[5], [6], [9], [10], [11], [12]]]}
     nmax = 4 if tier == "quick" else 5
     for n in range(1, nmax + 1):
         for ci, c in enumerate(D.complete_rankings(n)):
@@ -93,6 +142,8 @@ def _check_sequence(case):
 def check_case(case):
     if case["kind"] == "sequence":
         return _check_sequence(case)
+    if case["kind"] == "large":
+        return _check_large(case)
     from bounded import adapt as A
     from corankco.kemeny_score_computation import KemenyComputingFactory, InvalidRankingsForComputingDistance
     from corankco.consensus import Consensus
